@@ -267,7 +267,7 @@ func c12Interesting(text string) bool {
 func TestC12(t *testing.T) {
 	r := kit.New(t, "C12")
 	defer r.Finish()
-	r.SetRule("G3 executable trees (hostile string contents, block strings, directives in every position, fragment variables, comments) rendered with random ignored text and comments, parsed, then formatted under ALL 16 option subsets x 7 indents (6 explicit whitespace indents + default). " +
+	r.SetRule("G3 executable trees (hostile string contents, block strings, directives in every position, fragment variables, comments) rendered with random ignored text and comments, parsed, then formatted under ALL 16 option subsets x 7 indents (6 explicit whitespace indents + default); wide and deep members of the grammar (18 kinds, sizes up to 1025 quick / 4097 thorough) under three configurations. " +
 		"oracle: formatted text parses; projection equal (block string == quoted string of equal value, alias==name == no alias); string values byte for byte; format(parse(format(d))) == format(d). non-trivial = document with an escape, a directive or a fragment; distinct by (text, config)")
 	kit.RegisterReplayer("C12", "doc", c12Replay)
 	kit.RegisterReplayer("C12", "corpus", c12Replay)
@@ -294,6 +294,32 @@ func TestC12(t *testing.T) {
 	}
 	for _, in := range c12Corpus {
 		evalAll("corpus", in, func(c c12Case, v string) { r.Violation("corpus", c, "%s", v) })
+	}
+	// wide and deep members of the grammar (sizes straddling round thresholds), three configurations each
+	kit.RegisterReplayer("C12", "wide", c12Replay)
+	wideCfgs := []fmtConfig{{DefaultInd: true}, {Indent: "", Comments: true, Compacted: true}, {Indent: " \t", Comments: true}}
+	for _, kind := range gen.WideQueryKinds {
+		for _, n := range kit.PickInts([]int{1, 17, 129, 501, 1025}, gen.WideSizes) {
+			if strings.HasPrefix(kind, "d-") && n > 600 {
+				continue
+			}
+			text := gen.WideQuery(kind, n)
+			for _, cfg := range wideCfgs {
+				c := c12Case{Input: text, Config: cfg}
+				r.Begin("wide", func() interface{} { return c })
+				v, known := c12Eval(c)
+				r.End()
+				for _, k := range known {
+					r.Known(k)
+				}
+				r.Case(true, fmt.Sprintf("wide:%s:%d:%v", kind, n, cfg))
+				r.Class("wide:" + kind)
+				if v != "" {
+					r.Violation("wide", c, "%s", cut(v, 0, 600))
+					break
+				}
+			}
+		}
 	}
 	if r.Violations() > 0 {
 		return
